@@ -523,6 +523,9 @@ def run(facts, rep):
                     rep.ok("R-WIRE(size)", k, "fixed part %d byte(s) and conditional parts agree with the writer%s" %
                            (fw[0], "; variable term present" if fs[3] else ""), facts.loc(g["s"]),
                            sample={"triple": label, "scheme": sc, "fixed_bytes": fw[0], "size_grammar": show(gs)})
+                elif fw[0] != fs[0] and any(x_[0] == "raw" for x_ in gw):
+                    rep.unresolved("R-WIRE(size)", k, "the writer emits a byte block whose length is not a literal (e.g. a const-generic "
+                                   "array): its fixed byte count is not known to the rule", facts.loc(g["s"]))
                 elif fw[0] != fs[0]:
                     rep.violation("R-WIRE(size)", k, "the size function announces %d fixed byte(s) but the writer emits %d "
                                   "(writer: %s ; size: %s): announced size != bytes written" %
